@@ -8,6 +8,9 @@ import Holpy.C12.Complete
 import Holpy.C12.Edits
 import Holpy.C12.Hist
 import Holpy.C12.Users
+import Holpy.C12.UsersIso
+import Holpy.C12.UsersSpec
+import Holpy.C12.UsersHist
 /-
 C12 — property theorems (statements live here, helper lemmas in Proofs / Exec / Exec2 / Complete / Reread / Edits / Hist).
 
@@ -65,7 +68,7 @@ theorem load_returns_spec (W : World) (names : List Name) (files : Name → File
     r.1 = none → ∀ k, specLoad W s.lib k n lim ≠ .error .fuel → specLoad W s.lib k n lim = .ok (r.2.thy.getD []) := by
   intro s r hr k hk
   obtain ⟨U, hi⟩ := hist_inv W names files fuel h hh
-  exact (exec_post W s.lib U none fuel (.load n lim) _ hi).2.2 rfl hr k hk
+  exact exec_load_ok W s.lib U fuel n lim _ hi hr k hk
 
 example :
     let s := run exWorld 50 exHistory (initState [1, 2, 3] exFiles)
@@ -414,23 +417,24 @@ example :
 theorem focus_thy (s : State) (u : Nat) : (s.focus u).thy = s.thy := by
   unfold State.focus; split <;> rfl
 
-/-- Import resolution for a user: `load_theory(n, limit, username=u)` is the loader run on the library and cache of
-    user `u` ALONE (imports are looked up in `users/<u>/` only — the code has no fall-back to, or shadowing of, the
-    master library), so a normal return carries the specification evaluated on u's own files.
-    PARTIAL: proved for worlds without lazy imports (`lazyOf = none`).  With lazy imports a user's load can run
-    master loads through the `basic.load_theory` calls of imported modules (modelled in `execU`, tied to the
-    implementation by the second-user histories of the harness, not covered by a theorem). -/
-theorem user_resolution_spec_partial (W : World) (hlazy : ∀ n, W.lazyOf n = none) (L : Lib) (U : Used) (s : State)
+/-- Import resolution for a user, WITH lazy imports: `load_theory(n, limit, username=u)` is the loader run on the
+    library and cache of user `u` (imports are looked up in `users/<u>/` only — the code has no fall-back to, or
+    shadowing of, the master library); the `basic.load_theory` calls of lazily imported modules work on master's library
+    and never disturb u's.  So whenever the cache invariant holds for u's own library (`Inv` of the state focused on
+    `u`; nothing is assumed about the other users), a normal return carries the specification evaluated on u's own
+    files.  Holds for every user, master included, and from every focus. -/
+theorem user_resolution_spec (W : World) (L : Lib) (U : Used) (s : State)
     (u : Nat) (hi : Inv W L U (s.focus u)) (f : Nat) (n : Name) (lim : Limit) :
     let r := execU W none (f + 1) (.load u n lim) s
     r.1 = none → ∀ k, specLoad W L k n lim ≠ .error .fuel → specLoad W L k n lim = .ok (r.2.thy.getD []) := by
   intro r hr k hk
-  have heq := execU_load_eq W none hlazy f u n lim s
-  have h1 : r.1 = (exec W none (f + 1) (.load n lim) (s.focus u)).1 := by show (execU W none (f + 1) (.load u n lim) s).1 = _; rw [heq]
-  have h2 : r.2.thy = (exec W none (f + 1) (.load n lim) (s.focus u)).2.thy := by
-    show (execU W none (f + 1) (.load u n lim) s).2.thy = _; rw [heq]; exact focus_thy _ _
+  have hbody := (loadBody_post W L U (execU_recOk W L U none f) n lim hi).2.2
+  have h1 : r.1 = (loadBody W (fun c st => execU W none f c.toU st) n lim (s.focus u)).1 := by
+    show (execU W none (f + 1) (.load u n lim) s).1 = _; rw [execU]
+  have h2 : r.2.thy = (loadBody W (fun c st => execU W none f c.toU st) n lim (s.focus u)).2.thy := by
+    show (execU W none (f + 1) (.load u n lim) s).2.thy = _; rw [execU]; exact focus_thy _ _
   rw [h2]
-  exact (exec_post W L U none (f + 1) (.load n lim) _ hi).2.2 rfl (by rw [← h1]; exact hr) k hk
+  exact hbody (by rw [← h1]; exact hr) k hk
 
 /-- master has theories 1 ← 2 with items 10 / 20; user 1 has its own files for the same names: items 110 / 120 -/
 def uState : State :=
@@ -440,35 +444,100 @@ def uState : State :=
 
 example :
     (execU siWorld none 50 (.load 1 2 .none) uState).2.thy = some [110, 120]
-    ∧ (execU siWorld none 50 (.load 0 2 .none) (execU siWorld none 50 (.load 1 2 .none) uState).2).2.thy = some [10, 20]
-    ∧ specLoad siWorld (uState.focus 1).lib 5 2 .none = .ok [110, 120] :=
-  ⟨by decide, by decide, by rfl⟩
+    ∧ (execU siWorld none 50 (.load 0 2 .none) (execU siWorld none 50 (.load 1 2 .none) uState).2).2.thy = some [10, 20] :=
+  ⟨by decide, by decide⟩
 
-/-- Users are isolated as far as FILES go: replacing (or touching) a file of another user `B` changes neither the
-    library nor the cache of the user in focus, nor `theory.thy`; and an edit of a file of the user in focus leaves
-    the stored library and cache of every other user `A` as they are.
-    PARTIAL: that LOADS of user B leave every user A ∉ {B, master} untouched is how `execU` is built (a load focuses
-    on B's component; only master is reached, through module imports) and is tied to the implementation by the
-    second-user histories of the harness; it is not stated as a theorem. -/
-theorem users_isolated_partial (W : World) (fuel : Nat) (s : State) (B : Nat) (n : Name)
-    (imps : List Name) (items : List Item) (t : Nat) :
-    (B ≠ s.user →
-      (stepU W fuel (.edit B n imps items t) s).2.names = s.names ∧ (stepU W fuel (.edit B n imps items t) s).2.files = s.files
-      ∧ (stepU W fuel (.edit B n imps items t) s).2.cache = s.cache ∧ (stepU W fuel (.edit B n imps items t) s).2.thy = s.thy
-      ∧ (stepU W fuel (.touch B n t) s).2.files = s.files ∧ (stepU W fuel (.touch B n t) s).2.cache = s.cache)
-    ∧ (B = s.user → ∀ A, (stepU W fuel (.edit B n imps items t) s).2.others A = s.others A) := by
-  constructor
-  · intro hB
-    have hB' : ¬ s.user = B := fun h => hB h.symm
-    unfold stepU State.focus setFile
-    simp [hB, hB']
-  · intro hB A
-    unfold stepU State.focus setFile
-    simp [hB]
+/-- the same library as `uState`, but theory 2 lazily imports module 7 whose body calls `load_theory(1)` — on master -/
+def lzWorld : World := { siWorld with lazyOf := fun n => if n = 2 then some 7 else none, body := fun m => if m = 7 then [.load 1] else [] }
 
 example :
-    (execU siWorld none 50 (.load 1 2 .none) (stepU siWorld 50 (.edit 0 1 [] [11] 9) uState).2).2.thy = some [110, 120]
-    ∧ (execU siWorld none 50 (.load 0 2 .none) (stepU siWorld 50 (.edit 1 1 [] [111] 9) uState).2).2.thy = some [10, 20] :=
+    (execU lzWorld none 50 (.load 1 2 .none) uState).2.thy = some [110, 120]
+    ∧ specLoad lzWorld (uState.focus 1).lib 5 2 .none = .ok [110, 120]
+    -- the lazy import ran a master load: master's theory 1 is now cached, user 1's result is still its own
+    ∧ (execU lzWorld none 50 (.load 1 2 .none) uState).2.imported 7 = true
+    ∧ ((execU lzWorld none 50 (.load 1 2 .none) uState).2.entry 1).isSome = true :=
+  ⟨by decide, by rfl, by decide, by decide⟩
+
+/-- Users are isolated.  (i) A `load_theory(..., username=B)` — with everything it triggers: lazily imported modules
+    and the master loads those modules make — never changes the library or the cache of any user `A` other than `B`
+    and master.  (ii) Replacing or touching a file of user `B`, or re-reading B's metadata, never changes the library
+    or the cache of another user `A`.  (`A` out of focus: between the loader's public entry points the focus is on
+    the caller's user; `others A` is the stored library and cache of `A`.)  So what a later load of `A` sees of its own
+    files and cache is what it would see had B's operations not happened. -/
+theorem users_isolated (W : World) (fault : Option Item) (fuel : Nat) (s : State) (A B : Nat) (hAB : B ≠ A)
+    (hs : s.user ≠ A) (n : Name) (lim : Limit) (imps : List Name) (items : List Item) (t : Nat) :
+    (A ≠ 0 → (execU W fault fuel (.load B n lim) s).2.user = s.user ∧ (execU W fault fuel (.load B n lim) s).2.others A = s.others A)
+    ∧ (stepU W fuel (.edit B n imps items t) s).2.others A = s.others A
+    ∧ (stepU W fuel (.touch B n t) s).2.others A = s.others A
+    ∧ (stepU W fuel (.reloadMeta B) s).2.others A = s.others A := by
+  refine ⟨fun hA => fr_execU W fault hA fuel (.load B n lim) s hs hAB, ?_, ?_, ?_⟩
+  · unfold stepU
+    obtain ⟨h1, h2⟩ := fr_focus (A := A) s B hAB hs
+    have h3 : (setFile (s.focus B) n { imports := imps, items := items, mtime := t }).user ≠ A := by
+      show (s.focus B).user ≠ A; rw [h1]; exact hAB
+    obtain ⟨_, h4⟩ := fr_focus (A := A) (setFile (s.focus B) n { imports := imps, items := items, mtime := t }) s.user hs h3
+    simp only []
+    rw [h4]; exact h2
+  · unfold stepU
+    obtain ⟨h1, h2⟩ := fr_focus (A := A) s B hAB hs
+    simp only []
+    have h3 : (setFile (s.focus B) n { (s.focus B).files n with mtime := t }).user ≠ A := by
+      show (s.focus B).user ≠ A; rw [h1]; exact hAB
+    obtain ⟨_, h4⟩ := fr_focus (A := A) (setFile (s.focus B) n { (s.focus B).files n with mtime := t }) s.user hs h3
+    rw [h4]; exact h2
+  · unfold stepU
+    obtain ⟨h1, h2⟩ := fr_focus (A := A) s B hAB hs
+    simp only []
+    have h5 : Fr A (s.focus B) (loadMetadata (s.focus B)).2 := fr_loadMetadata _
+    have h3 : (loadMetadata (s.focus B)).2.user ≠ A := by rw [h5.1, h1]; exact hAB
+    obtain ⟨_, h4⟩ := fr_focus (A := A) (loadMetadata (s.focus B)).2 s.user hs h3
+    rw [h4, h5.2]; exact h2
+
+/-- History-level statement for several users, for every NON-master user `u`: start a process whose caches are empty
+    (`s0`), run ANY history of loads, interrupted loads, module imports, touches, edits and metadata reloads of ANY
+    users; if the operations on u's OWN files satisfy the usual hypothesis (`okHistU`: fresh timestamps, no load for
+    `u` between an edit of the imports of one of u's files and `load_metadata(u)`) — nothing is asked of what the other
+    users do — then a `load_theory(T, limit, username=u)` that returns normally leaves the specification evaluated on
+    u's CURRENT files (lazy imports and the master loads they trigger included).
+    PARTIAL: (1) `u` = master is not covered when other users are active (master's library and cache are also
+    changed by the other users' lazy imports; its invariant is not threaded through their loads), (2) the direction
+    "the specification succeeds ⇒ the load does not raise" is proved for one user only (`load_eq_spec`). -/
+theorem load_eq_spec_users_partial (W : World) (s0 : State) (hfocus : s0.user = 0) (u : Nat) (hu : u ≠ 0)
+    (hcache : (s0.focus u).cache = none) (h : List OpU) (fuel : Nat)
+    (hok : okHistU W fuel u h s0 (used0 (s0.focus u).files) false) (f : Nat) (n : Name) (lim : Limit) :
+    let s := runU W fuel h s0
+    let r := execU W none (f + 1) (.load u n lim) s
+    r.1 = none → ∀ k, specLoad W (s.focus u).lib k n lim ≠ .error .fuel →
+      specLoad W (s.focus u).lib k n lim = .ok (r.2.thy.getD []) := by
+  intro s r hr k hk
+  have hj0 : JU W u s0 (used0 (s0.focus u).files) false := by
+    refine ⟨hfocus, fun _ => ⟨filesOk_lib _, ?_, fun k => by simp [used0]⟩, fun k => by simp [used0]⟩
+    intro T hT; rw [hcache] at hT; cases hT
+  obtain ⟨U', hj⟩ := runU_inv W fuel u hu h s0 _ false hj0 hok
+  exact user_resolution_spec W (s.focus u).lib U' s u (hj.2.1 rfl) f n lim hr k hk
+
+example :
+    let h : List OpU := [.load 1 2 .none none, .edit 0 1 [] [11] 9, .load 0 2 .none none, .touch 1 1 3,
+                         .edit 1 2 [] [120] 8, .reloadMeta 1, .load 2 2 .none (some 210)]
+    okHistU lzWorld 50 1 h uState (used0 (uState.focus 1).files) false
+    ∧ (execU lzWorld none 50 (.load 1 2 .none) (runU lzWorld 50 h uState)).2.thy = some [120]
+    ∧ specLoad lzWorld ((runU lzWorld 50 h uState).focus 1).lib 5 2 .none = .ok [120] := by
+  refine ⟨?_, by decide, by rfl⟩
+  simp only [okHistU]
+  decide
+
+/-- three users: master, 1 and 2 (user 2 has item 220 in theory 2) -/
+def uState3 : State :=
+  { uState with others := fun u => if u = 2 then { names := [1, 2], files := fun n =>
+      if n = 1 then { imports := [], items := [210], mtime := 5 } else { imports := [1], items := [220], mtime := 5 } }
+      else uState.others u }
+
+example :
+    -- what user 2 gets is the same before and after user 1 loads, edits and reloads
+    (execU siWorld none 50 (.load 2 2 .none) uState3).2.thy = some [210, 220]
+    ∧ (execU siWorld none 50 (.load 2 2 .none)
+        (stepU siWorld 50 (.reloadMeta 1) (stepU siWorld 50 (.edit 1 1 [] [111] 9)
+          (execU siWorld none 50 (.load 1 2 .none) uState3).2).2).2).2.thy = some [210, 220] :=
   ⟨by decide, by decide⟩
 
 /-! ### the tables generated from the sources -/
